@@ -108,6 +108,70 @@ impl EdgeList {
     @*/
 }
 
+// ---- C16: every round trip is the identity ----
+// A conversion sees its source only through the trait contract (`Dg`).  `d0` stands for the start value x0 of
+// representation A, `d1` for the intermediate value B::from(x0) (any representation B: by the contracts above its
+// order / arc relation equal d0's on ids), and x2 = A::from(that intermediate) satisfies A::from_dg's postcondition
+// w.r.t. d1.  Then x2 denotes the same digraph as x0, and (canonical-form lemmas of the core units) has equal field views.
+
+/// `d` is the digraph (ord, has) as seen through the trait methods
+spec fn dg_stands_for(d: Dg, ord: int, has: spec_fn(int, int) -> bool) -> bool {
+    &&& d.ord() == ord
+    &&& forall|a: int, b: int| #[trigger] d.has(a, b) == has(a, b)
+}
+
+/// C16 postcondition of every From<unweighted representation>: same order, same arcs
+spec fn dg_same(d1: Dg, d0: Dg) -> bool {
+    &&& d1.ord() == d0.ord()
+    &&& forall|a: int, b: int| is_id(a) && is_id(b) ==> #[trigger] d1.has(a, b) == d0.has(a, b)
+}
+
+proof fn lemma_round_trip_matrix(m0: AdjacencyMatrix, d0: Dg, d1: Dg, m2: AdjacencyMatrix)
+    requires
+        m0.wf(),
+        dg_stands_for(d0, m0.order as int, |a: int, b: int| m0.has(a, b)),
+        dg_same(d1, d0),
+        // postcondition of AdjacencyMatrix::from_dg(d1)
+        m2.wf(),
+        m2.order == d1.ord(),
+        forall|a: int, b: int| #![trigger m2.has(a, b)] is_id(a) && is_id(b) ==> m2.has(a, b) == d1.has(a, b),
+    ensures
+        m2.order == m0.order,
+        forall|a: int, b: int| m2.has(a, b) == m0.has(a, b),
+{
+    assert forall|a: int, b: int| m2.has(a, b) == m0.has(a, b) by {
+        if is_id(a) && is_id(b) {
+            assert(d1.has(a, b) == d0.has(a, b));
+            assert(d0.has(a, b) == (|a: int, b: int| m0.has(a, b))(a, b));
+        }
+    }
+}
+
+proof fn lemma_round_trip_edge(e0: EdgeList, d0: Dg, d1: Dg, e2: EdgeList)
+    requires
+        e0.wf(),
+        dg_stands_for(d0, e0.ord(), |a: int, b: int| e0.has(a, b)),
+        dg_same(d1, d0),
+        // postcondition of EdgeList::from_dg(d1)
+        e2.wf(),
+        e2.ord() == d1.ord(),
+        forall|a: int, b: int| #![trigger e2.has(a, b)] is_id(a) && is_id(b) ==> e2.has(a, b) == d1.has(a, b),
+    ensures
+        e2.ord() == e0.ord(),
+        forall|a: int, b: int| e2.has(a, b) == e0.has(a, b),
+        // identity on the representation itself
+        e2.order == e0.order,
+        e2.arcs@ == e0.arcs@,
+{
+    assert forall|a: int, b: int| e2.has(a, b) == e0.has(a, b) by {
+        if is_id(a) && is_id(b) {
+            assert(d1.has(a, b) == d0.has(a, b));
+            assert(d0.has(a, b) == (|a: int, b: int| e0.has(a, b))(a, b));
+        }
+    }
+    lemma_edge_canonical(e2, e0);
+}
+
 // ---- AdjacencyList side. Its own module: list_core.inc.rs and edge_list_core.inc.rs each carry a module-level
 // `broadcast use` and Verus allows one per module ----
 mod list_side {
@@ -118,9 +182,201 @@ use super::*;
 /*@struct name=ArcsIterator @*/
 
 impl<'a> ArcsIterator<'a> {
+    /// items the row iterator still holds (row u - 1)
+    #[verifier::prophetic]
+    spec fn rem(&self) -> Seq<&'a usize> {
+        if self.inner is Some { self.inner->0.remaining() } else { Seq::empty() }
+    }
+    /// abstract state: the arc (a, b) has not been produced yet and will be
+    #[verifier::prophetic]
+    spec fn pending(&self, a: int, b: int) -> bool {
+        ||| self.u <= a < self.arcs@.len() && is_id(b) && self.arcs@[a]@.contains(b as usize)
+        ||| a == self.u - 1 && exists|i: int| 0 <= i < self.rem().len() && *(#[trigger] self.rem()[i]) == b
+    }
+    /// representation invariant of the iterator
+    #[verifier::prophetic]
+    spec fn inv(&self) -> bool {
+        &&& self.u <= self.arcs@.len()
+        &&& self.inner is Some ==> {
+            &&& self.u >= 1
+            &&& self.inner->0.obeys_prophetic_iter_laws()
+            &&& self.inner->0.decrease() is Some
+            &&& self.row_left() >= 0
+            &&& forall|i: int| 0 <= i < self.rem().len() ==> self.arcs@[self.u - 1]@.contains(*(#[trigger] self.rem()[i]))
+            &&& forall|i: int, j: int| 0 <= i < j < self.rem().len() ==> *(#[trigger] self.rem()[i]) != *(#[trigger] self.rem()[j])
+        }
+    }
+    /// termination measure of a driver loop: rows not loaded yet, items left in the loaded row
+    spec fn rows_left(&self) -> int { self.arcs@.len() - self.u }
+    spec fn row_left(&self) -> int {
+        if self.inner is Some && self.inner->0.decrease() is Some { self.inner->0.decrease()->0 as int } else { 0 }
+    }
+
     /*@fn impl=ArcsIterator trait=Iterator name=next subst=Self::Item=>(usize,usize)
+    requires
+        old(self).inv(),
     ensures
-        true,
+        list_arcs_step(*old(self), *final(self), r),
+    @loop 1
+    invariant
+        self.inv(),
+        self.arcs == old(self).arcs,
+        forall|a: int, b: int| #![trigger self.pending(a, b)] self.pending(a, b) == old(self).pending(a, b),
+        self.rows_left() <= old(self).rows_left(),
+        self.rows_left() == old(self).rows_left() ==> self.row_left() <= old(self).row_left(),
+    decreases
+        self.rows_left(),
+    @loop_start 1
+        let ghost s0 = *self;
+    @before `return Some((self.u - 1, v));`
+        proof {
+            let r0 = s0.rem();
+            let r1 = self.rem();
+            assert(r0.len() > 0 && r1 == r0.drop_first() && v == *r0[0]);
+            assert forall|i: int| 0 <= i < r1.len() implies #[trigger] r1[i] == r0[i + 1] by {}
+            assert forall|a: int, b: int| #![trigger self.pending(a, b)] self.pending(a, b) == (s0.pending(a, b) && !(a == self.u - 1 && b == v)) by {
+                if a == self.u - 1 {
+                    if self.pending(a, b) {
+                        let i = choose|i: int| 0 <= i < r1.len() && *(#[trigger] r1[i]) == b;
+                        assert(*r0[i + 1] == b);
+                    }
+                    if s0.pending(a, b) && b != v {
+                        let i = choose|i: int| 0 <= i < r0.len() && *(#[trigger] r0[i]) == b;
+                        assert(*r1[i - 1] == b);
+                    }
+                }
+            }
+            assert(s0.pending(self.u - 1, v as int)) by { assert(*r0[0] == v); }
+        }
+    @before `if self.u >= self.arcs.len()`
+        let ghost s1 = *self;
+        proof {
+            assert(s1.rem().len() == 0);
+            assert forall|a: int, b: int| #![trigger s1.pending(a, b)] s1.pending(a, b) == s0.pending(a, b) by {}
+        }
+    @before `return None;`
+        proof {
+            assert forall|a: int, b: int| !old(self).pending(a, b) && !self.pending(a, b) by {
+                assert(s0.pending(a, b) == old(self).pending(a, b));
+                assert(s1.pending(a, b) == s0.pending(a, b));
+            }
+        }
+    @after `self.u += 1;`
+        proof {
+            broadcast use vstd::laws_cmp::group_laws_cmp;
+            assert(vstd::laws_cmp::obeys_cmp::<usize>());
+            let row = self.arcs@[s1.u as int]@;
+            let r1 = self.rem();
+            assert(r1.unref().to_set() == row);
+            assert forall|i: int| 0 <= i < r1.len() implies row.contains(*(#[trigger] r1[i])) by {
+                assert(r1.unref()[i] == *r1[i]);
+                assert(r1.unref().to_set().contains(r1.unref()[i]));
+            }
+            assert forall|a: int, b: int| #![trigger self.pending(a, b)] self.pending(a, b) == s1.pending(a, b) by {
+                if a == s1.u && is_id(b) {
+                    if row.contains(b as usize) {
+                        assert(r1.unref().to_set().contains(b as usize));
+                        let i = choose|i: int| 0 <= i < r1.unref().len() && r1.unref()[i] == b as usize;
+                        assert(*r1[i] == b);
+                    }
+                }
+            }
+        }
     @*/
+}
+
+/// contract of one `next()` call from state s to state t with result r
+#[verifier::prophetic]
+spec fn list_arcs_step(s: ArcsIterator, t: ArcsIterator, r: Option<(usize, usize)>) -> bool {
+    &&& t.inv()
+    &&& t.arcs == s.arcs
+    &&& r matches Some(p) ==> {
+        &&& p.0 < s.arcs@.len()
+        &&& s.arcs@[p.0 as int]@.contains(p.1)
+        &&& s.pending(p.0 as int, p.1 as int)
+        &&& forall|a: int, b: int| #![trigger t.pending(a, b)] t.pending(a, b) == (s.pending(a, b) && !(a == p.0 && b == p.1))
+        &&& (t.rows_left() < s.rows_left() || (t.rows_left() == s.rows_left() && t.row_left() < s.row_left()))
+    }
+    &&& r is None ==> forall|a: int, b: int| !s.pending(a, b) && !t.pending(a, b)
+}
+
+/// C16, building from an iterator of out-neighbour sets: the rows are kept as given
+spec fn rows_kept(g: AdjacencyList, rows: Seq<BTreeSet<usize>>) -> bool {
+    &&& g.arcs@.len() == rows.len()
+    &&& forall|i: int| 0 <= i < rows.len() ==> #[trigger] g.arcs@[i]@ == rows[i]@
+}
+
+impl AdjacencyList {
+    /*@fn impl=AdjacencyList trait=From implhas='impl<I> From<I>' name=from subst=I=>Vec<BTreeSet<usize>> drop=I dropwhere=I
+    ensures
+        r.wf(),
+        rows_kept(r, iter@),
+        iter@.len() > 0,
+        forall|i: int, x: usize| 0 <= i < iter@.len() && #[trigger] iter@[i]@.contains(x) ==> x < iter@.len() && x != i,
+    @manual `for (u, v) in digraph.arcs()` => `let mut arcs_it = ArcsIterator { arcs: &digraph.arcs, u: 0, inner: None }; while let Some((u, v)) = arcs_it.next()` :: E8b (iterinline) needs the iterator-returning method to be `Ctor(self)`; AdjacencyList::arcs is the struct literal `ArcsIterator { arcs: &self.arcs, u: 0, inner: None }`, inlined here by hand
+    @loop 1
+    invariant
+        arcs_it.inv(),
+        arcs_it.arcs@ == digraph.arcs@,
+        order == digraph.arcs@.len(),
+        forall|a: int, b: int| #![trigger digraph.has(a, b)] digraph.has(a, b) && !arcs_it.pending(a, b) ==> b < order && a != b,
+    ensures
+        forall|a: int, b: int| !arcs_it.pending(a, b),
+    decreases
+        arcs_it.rows_left(), arcs_it.row_left(),
+    @fn_end
+        proof { lemma_list_wf_has(digraph); }
+    @*/
+
+    /*@fn impl=AdjacencyList trait=Empty name=empty
+    ensures
+        order > 0,
+        r.wf(),
+        r.ord() == order,
+        forall|a: int, b: int| !r.has(a, b),
+    @*/
+
+    /*@fn impl=AdjacencyList trait=From name=from rename=from_dg macro=impl_from_arcs_empty_order macroarg=Dg
+    ensures
+        r.wf(),
+        r.ord() == digraph.ord(),
+        forall|a: int, b: int| #![trigger r.has(a, b)] is_id(a) && is_id(b) ==> r.has(a, b) == digraph.has(a, b),
+        dg_valid(digraph),
+    @loop 1
+    invariant
+        it1.iter.obeys_prophetic_iter_laws(),
+        it1.iter.decrease() is Some,
+        arcs_of(digraph, it1.seq()),
+        h.wf(),
+        h.ord() == order,
+        order == digraph.ord(),
+        forall|i: int| 0 <= i < it1.index() ==> (#[trigger] it1.seq()[i]).0 < order && it1.seq()[i].1 < order && it1.seq()[i].0 != it1.seq()[i].1,
+        forall|i: int| 0 <= i < it1.index() ==> h.has((#[trigger] it1.seq()[i]).0 as int, it1.seq()[i].1 as int),
+        forall|a: int, b: int| #![trigger h.has(a, b)] h.has(a, b) ==> exists|i: int| 0 <= i < it1.index() && it1.seq()[i] == (a as usize, b as usize),
+    @*/
+}
+
+proof fn lemma_round_trip_list(l0: AdjacencyList, d0: Dg, d1: Dg, l2: AdjacencyList)
+    requires
+        l0.wf(),
+        dg_stands_for(d0, l0.ord(), |a: int, b: int| l0.has(a, b)),
+        dg_same(d1, d0),
+        // postcondition of AdjacencyList::from_dg(d1)
+        l2.wf(),
+        l2.ord() == d1.ord(),
+        forall|a: int, b: int| #![trigger l2.has(a, b)] is_id(a) && is_id(b) ==> l2.has(a, b) == d1.has(a, b),
+    ensures
+        l2.ord() == l0.ord(),
+        forall|a: int, b: int| l2.has(a, b) == l0.has(a, b),
+        // identity on the representation itself
+        list_rows(l2) == list_rows(l0),
+{
+    assert forall|a: int, b: int| l2.has(a, b) == l0.has(a, b) by {
+        if is_id(a) && is_id(b) {
+            assert(d1.has(a, b) == d0.has(a, b));
+            assert(d0.has(a, b) == (|a: int, b: int| l0.has(a, b))(a, b));
+        }
+    }
+    lemma_list_canonical(l2, l0);
 }
 } // mod list_side
